@@ -1,6 +1,6 @@
 #![allow(clippy::excessive_precision)]
 use crate::DualNum;
-use num_traits::{Float, Zero};
+use num_traits::Float;
 use std::f64::consts::{FRAC_2_PI, FRAC_PI_4};
 
 /// Implementation of bessel functions for double precision (hyper) dual numbers.
@@ -51,8 +51,16 @@ pub trait BesselDual: DualNum<f64> + Copy {
 
     /// 2nd order bessel function of the first kind
     fn bessel_j2(self) -> Self {
-        if self.re().is_zero() {
-            self * self / 8.0 * (Self::one() - self * self / 12.0)
+        if self.re().abs() < 0.3 {
+            // ascending series: the recurrence below cancels catastrophically near zero
+            // (and overflows in the derivative parts for tiny arguments)
+            let z = self * self;
+            let s = z / 59454259200.0 - 1.0 / 309657600.0;
+            let s = s * z + 1.0 / 2211840.0;
+            let s = s * z - 1.0 / 23040.0;
+            let s = s * z + 1.0 / 384.0;
+            let s = s * z - 1.0 / 12.0;
+            z / 8.0 * (s * z + 1.0)
         } else {
             self.bessel_j1() * 2.0 / self - self.bessel_j0()
         }
